@@ -505,7 +505,20 @@ func cmdCheck(args []string) int {
 				}
 				newDep := ""
 				for u := range it.VC.uncontracted {
-					if !known[u] {
+					if known[u] {
+						continue
+					}
+					// only code whose effect is entirely unknown excuses a failure: a new function of the repository
+					// without a contract, a new call through an interface or a function value.  A new call of a
+					// library function changes at most what its arguments reach and yields an arbitrary result;
+					// what then fails (e.g. an index into that result) is a failure of the obligation.
+					own := strings.HasPrefix(u, "invoke ") || strings.HasPrefix(u, "dynamic call")
+					for _, pk := range receptorPkgs {
+						if strings.HasPrefix(u, pk+".") {
+							own = true
+						}
+					}
+					if own {
 						newDep = u
 					}
 				}
